@@ -91,10 +91,35 @@ def run(prog, tier):
 
     # ---------------------------------------------------------------- dispatch between the branches
     tt = prog.function(REL, "trapezium_transform")
-    txt = U(tt)
-    ok = ("near_zero = abs(dh) < " in txt and "t[near_zero] = trapezium_near_zero(x[near_zero], dh[near_zero])" in txt
-          and "t[stable] = trapezium_full(x[stable], dh[stable])" in txt and "stable = ~near_zero" in txt
-          and "return trapezium_full(x, dh)" in txt)
+    # as resolved terms: every masked store `t[M] = f(x[M], dh[M])` uses one mask M in all three places; M is `abs(dh) < c` for the
+    # expansion and its complement for the exact transform; without any near-zero cell the exact transform is applied to everything
+    rtt = Resolver(tt, prog, mi, None)
+    xa_, da_ = tt.args.args[0].arg, tt.args.args[1].arg
+    seen_near = seen_full = False
+    okm = True
+    for st_ in ast.walk(tt):
+        if isinstance(st_, ast.Assign) and len(st_.targets) == 1 and isinstance(st_.targets[0], ast.Subscript) and isinstance(st_.value, ast.Call) \
+                and U(st_.value.func) in ("trapezium_near_zero", "trapezium_full") and len(st_.value.args) == 2:
+            masks = [st_.targets[0].slice] + [a_.slice if isinstance(a_, ast.Subscript) else None for a_ in st_.value.args]
+            bases = [U(a_.value) if isinstance(a_, ast.Subscript) else None for a_ in st_.value.args]
+            if None in masks or bases != [xa_, da_]:
+                okm = False
+                continue
+            mt = [str(U(rtt.term(m_, st_))) for m_ in masks]
+            if len(set(mt)) != 1:
+                okm = False
+                continue
+            mnode = ast.parse(mt[0], mode="eval").body
+            near_b = pmatch(mnode, f"abs({da_}) < _c")
+            full_b = pmatch(mnode, f"~(abs({da_}) < _c)") or pmatch(mnode, f"abs({da_}) >= _c") or pmatch(mnode, f"logical_not(abs({da_}) < _c)")
+            if U(st_.value.func) == "trapezium_near_zero" and near_b is not None:
+                seen_near = True
+            elif U(st_.value.func) == "trapezium_full" and full_b is not None:
+                seen_full = True
+            else:
+                okm = False
+    rets_tt = [U(t_) for t_ in rtt.return_terms()]
+    ok = okm and seen_near and seen_full and f"trapezium_full({xa_}, {da_})" in rets_tt
     thr = [n for n in ast.walk(tt) if isinstance(n, ast.Compare) and "abs(dh)" in U(n.left)]
     okt = len(thr) == 1 and isinstance(thr[0].comparators[0], ast.Constant) and 0 < thr[0].comparators[0].value <= 1e-3
     obs.append(struct_ob("branch-dispatch", fqual(mi, tt), ok and okt,
